@@ -13,6 +13,7 @@ import (
 	"regexp"
 	"strings"
 	"sync"
+	"sync/atomic"
 	"time"
 )
 
@@ -55,8 +56,11 @@ type TargetStateConsumer interface {
 }
 
 type inflightRequest struct {
-	cancel   context.CancelCauseFunc
-	hijacked bool
+	cancel context.CancelCauseFunc
+
+	// Set by the request's goroutine when the connection is hijacked, and read
+	// by Drain from the goroutine of the command that is draining the target.
+	hijacked atomic.Bool
 }
 
 type inflightMap map[*http.Request]*inflightRequest
@@ -185,7 +189,7 @@ func (t *Target) Drain(timeout time.Duration) {
 
 	// Cancel any hijacked requests immediately, as they may be long-running.
 	for _, inflight := range toCancel {
-		if inflight.hijacked {
+		if inflight.hijacked.Load() {
 			inflight.cancel(ErrorDraining)
 		}
 	}
@@ -467,7 +471,7 @@ func (r *targetResponseWriter) Hijack() (net.Conn, *bufio.ReadWriter, error) {
 		return nil, nil, errors.New("ResponseWriter does not implement http.Hijacker")
 	}
 
-	r.inflightRequest.hijacked = true
+	r.inflightRequest.hijacked.Store(true)
 	return hijacker.Hijack()
 }
 
